@@ -586,6 +586,92 @@ def configurations(ctx):
     ctx.floor('CONFIGURATIONS', n, 16 if ctx.tier != 'thorough' else 33)
 
 
+def unique_rows(ctx):
+    """unique_rows2 (the list of bins to sweep) interpreted on model tables of whole numbers: every distinct row once, nothing else.  CONFIGURATIONS models it by that specification."""
+    import numpy as np
+    fn = ctx.fn(NL, 'unique_rows2')
+    loc = NL + '::unique_rows2'
+
+    class DT(PyStub):
+        itemsize = 8
+
+        def __eq__(self, o):
+            return isinstance(o, DT)
+
+        def __hash__(self):
+            return 1
+
+    class Void(PyStub):
+        def __init__(self, nbytes):
+            self.nbytes = nbytes
+
+    class Model(np.ndarray):
+        _am_attrs = {}
+
+    def table(rows, ncols):
+        t = np.empty((len(rows), ncols), dtype=object)
+        for i, r in enumerate(rows):
+            t[i] = [sp.Integer(x) for x in r]
+        t = t.view(Model)
+
+        def view(dt):
+            if isinstance(dt, DT):
+                return t
+            if isinstance(dt, Void) and dt.nbytes == 8 * ncols:
+                return Keys([tuple(int(x) for x in r) for r in rows], ncols, (len(rows), 1))
+            raise Opaque('view of a table of whole numbers as %r' % (dt,))
+        t._am_attrs = {'dtype': DT(), 'view': view}
+        return t
+
+    class Keys(PyStub):
+        """rows seen as opaque records (one per row)"""
+        def __init__(self, rows, ncols, shape):
+            self.rows, self.ncols, self.shape = rows, ncols, shape
+
+        def view(self, dt):
+            if not isinstance(dt, DT):
+                raise Opaque('view of row records as %r' % (dt,))
+            return table([[x] for r in self.rows for x in r], 1).reshape(-1) if self.rows else np.empty(0, dtype=object)
+
+        def reshape(self, *a):
+            return self
+
+        def ravel(self):
+            return self
+
+    def unique(x, axis=None, **k):
+        if k:
+            raise Opaque('np.unique keyword(s) %s' % sorted(k))
+        if isinstance(x, Keys):
+            return Keys(sorted(set(x.rows)), x.ncols, (len(set(x.rows)),))
+        a = np.asarray(x, dtype=object)
+        if axis is None:
+            return table([[v] for v in sorted({int(e) for e in a.flat})], 1).reshape(-1)
+        if int(axis) == 0 and a.ndim == 2:
+            return table(sorted({tuple(int(e) for e in r) for r in a}), a.shape[1])
+        raise Opaque('np.unique along axis %s' % axis)
+    cases = [('bins with repeats, out of order', [(2, 1, 0), (0, 0, 0), (2, 1, 0), (1, 0, 2), (0, 0, 0), (0, 2, 1), (1, 0, 2)]),
+             ('a single bin', [(3, 3, 3)]),
+             ('rows that share all their entries in another order', [(1, 2, 3), (3, 2, 1), (2, 1, 3), (1, 2, 3)]),
+             ('rows that differ in one column only', [(1, 1, 1), (1, 1, 2), (1, 2, 1), (2, 1, 1), (1, 1, 1)])]
+    n = 0
+    for tag, rows in cases:
+        ev = SymEval(module_aliases(ctx.mod(NL)))
+        ev.np_override = {'numpy.unique': unique, 'numpy.dtype': lambda spec: (Void(int(spec[1])) if isinstance(spec, tuple) and len(spec) == 2 and getattr(spec[0], 'name', None) == 'numpy.void' else DT()),
+                          'numpy.int64': DT()}
+        try:
+            paths = [q for q in ev.run_fn(fn, [table(rows, 3)], {}) if q.done == 'return']
+            res = paths[0].ret if len(paths) == 1 else None
+            got = sorted(tuple(int(e) for e in r) for r in np.asarray(res, dtype=object)) if res is not None and np.ndim(res) == 2 else None
+        except WouldRaise as e:
+            got = 'raises: %s' % e
+        except Opaque as e:
+            raise AnalysisError('unique_rows2 on a model table (%s): %s' % (tag, e))
+        n += 1
+        ctx.ob('UNIQUE-ROWS', loc, '%s: the result holds every distinct row once and nothing else' % tag, got == sorted(set(rows)), 'got %s' % (got,), node=fn, key=tag)
+    ctx.floor('UNIQUE-ROWS', n, 4)
+
+
 def neighborlist(ctx):
     b = ctx.fn(NLP, 'NeighborList.build')
     loc = NLP + '::NeighborList'
@@ -718,6 +804,6 @@ def run(ctx):
                        'nlist() is also interpreted whole, in exact arithmetic, on scripted small configurations (CONFIGURATIONS): the table returned lists exactly the atoms below the cutoff. Not decided: configurations outside the scripted ones beyond what the structural rules imply.')
     from .c02 import minfold, DM
     from .. import readonly, lints
-    ctx.run_rules([lambda c: sweep_fill(c) and None, stencil, geometry, membership, insertion, configurations, neighborlist,
+    ctx.run_rules([lambda c: sweep_fill(c) and None, stencil, geometry, membership, insertion, configurations, unique_rows, neighborlist,
                    lambda c: minfold(c, DM, 'dmag2_c', False), lambda c: readonly.rule(c, NL, floor=2) and None,
                    lambda c: lints.c_double(c, 'C-DOUBLE', NL, floor=18), buffer_types])
